@@ -33,6 +33,32 @@ def _binding_name(m, node):
     return "?"
 
 
+def _keywords_of(prog, call):
+    """keyword arguments of a call as {name: node}, `**options` written out when `options` is a dict display, a `dict(k=v)`
+    call, or a single-assignment name (module level or local) bound to one"""
+    out = {}
+    for k in call.keywords:
+        if k.arg:
+            out[k.arg] = k.value
+            continue
+        v = k.value
+        if isinstance(v, ast.Name):
+            b = prog.lookup(v.id, call)
+            if b[0] == "value":
+                v = b[2]
+            elif b[0] == "local" and isinstance(b[1], (ast.FunctionDef, ast.AsyncFunctionDef)):
+                defs = [n for n in ast.walk(b[1]) if isinstance(n, ast.Assign) and any(isinstance(t, ast.Name) and t.id == v.id for t in n.targets)]
+                if len(defs) == 1:
+                    v = defs[0].value
+        if isinstance(v, ast.Dict):
+            for kk, vv in zip(v.keys, v.values):
+                if isinstance(kk, ast.Constant) and isinstance(kk.value, str):
+                    out[kk.value] = vv
+        elif isinstance(v, ast.Call) and isinstance(v.func, ast.Name) and v.func.id == "dict" and not v.args:
+            out.update({kw.arg: kw.value for kw in v.keywords if kw.arg})
+    return out
+
+
 def wrap_chain(prog, e, at, depth=0):
     """What a function-valued expression denotes when it is a word-wrapper: list of (external name, {keyword: node} bound on
     the way by partial(...), origin) - origin names the module-level binding the configuration lives in, if any."""
@@ -45,7 +71,7 @@ def wrap_chain(prog, e, at, depth=0):
             out = []
             for name, kw, origin in wrap_chain(prog, e.args[0], e, depth + 1):
                 kw2 = dict(kw)
-                kw2.update({k.arg: k.value for k in e.keywords if k.arg})
+                kw2.update(_keywords_of(prog, e))
                 out.append((name, kw2, origin))
             return out
         return []
@@ -85,7 +111,7 @@ def wrap_sites(prog):
                 alts = []
                 for name, kw, origin in ch:
                     kw2 = dict(kw)
-                    kw2.update({k.arg: k.value for k in c.keywords if k.arg})
+                    kw2.update(_keywords_of(prog, c))
                     alts.append((name, kw2, origin))
                 out.append((c, c.func, alts, c.args[0] if c.args else None))
             elif isinstance(c.func, ast.Name) and c.func.id == "map" and prog.lookup("map", c)[0] == "builtin" and len(c.args) == 2:
@@ -141,6 +167,16 @@ def unwrap_sites(prog):
                 branch = [n.orelse]
             elif isinstance(n, ast.If) and isinstance(n.test, ast.Name) and n.test.id == WORD_WRAP_FLAG:
                 branch = n.body
+            elif isinstance(n, ast.If) and isinstance(n.test, ast.UnaryOp) and isinstance(n.test.op, ast.Not) and isinstance(n.test.operand, ast.Name) \
+                    and n.test.operand.id == WORD_WRAP_FLAG:
+                # `if not word_wrap: <leave>`: with wrapping on, what follows in the same block runs
+                branch = list(n.orelse)
+                if n.body and isinstance(n.body[-1], (ast.Return, ast.Raise, ast.Continue, ast.Break)):
+                    par = getattr(n, "_parent", None)
+                    for fld in ("body", "orelse", "finalbody"):
+                        blk = getattr(par, fld, None)
+                        if isinstance(blk, list) and any(x is n for x in blk):
+                            branch += blk[[i for i, x in enumerate(blk) if x is n][0] + 1:]
             if not branch:
                 continue
             code = list(branch) + [t.node for b in branch for t in _helper_bodies(prog, b)]
@@ -680,6 +716,12 @@ def rule_scan_after_rejoin(prog, rep, tier, entry="docstring_parsers.parse_docst
                 return "%s%s" % ("not-" if neg else "", t.comparators[0].attr)
         return "any"
 
+    def owner(f):
+        top = f
+        while top.parent_fn is not None:
+            top = top.parent_fn
+        return prog.owner_name(top)
+
     n_flows = 0
     for f in composites:
         apps = applications(f)
@@ -704,7 +746,7 @@ def rule_scan_after_rejoin(prog, rep, tier, entry="docstring_parsers.parse_docst
             slot = _slot_of(node)
             if k == "R":
                 rep.violation(Finding(
-                    "SCAN-AFTER-REJOIN", prog.owner_name(f), "reader-never-rejoined:%s:%s" % (slot, tag),
+                    "SCAN-AFTER-REJOIN", owner(f), "reader-never-rejoined:%s:%s" % (slot, tag),
                     "the default reader is applied to a description whose lines are never re-joined (%s): a `Defaults to ...` that the wrapper split across "
                     "two lines is not found, so the default of this entry depends on the line length" % src(node, 70), loc(prog, node)))
                 continue
@@ -725,7 +767,7 @@ def rule_scan_after_rejoin(prog, rep, tier, entry="docstring_parsers.parse_docst
                 rep.holds("SCAN-AFTER-REJOIN", inst, loc(prog, node), "read before the re-join, and read again afterwards by %s (%s)" % (comp[0].qualname, loc(prog, comp[1])))
             else:
                 rep.violation(Finding(
-                    "SCAN-AFTER-REJOIN", prog.owner_name(f), "reader-before-rejoin:%s:%s" % (slot, tag),
+                    "SCAN-AFTER-REJOIN", owner(f), "reader-before-rejoin:%s:%s" % (slot, tag),
                     "the default reader is applied before the lines of the description are re-joined (%s) and nothing reads the re-joined text again on this "
                     "path: a `Defaults to ...` that the wrapper split across two lines is not found (the default is lost, or forced to a placeholder)" % src(node, 70),
                     loc(prog, node)))
